@@ -57,6 +57,10 @@ func sortedStrict[T comparable](c *core.Ctx, tname string, gen func(*core.Rand) 
 		input = []T{}
 	default:
 		k := r.Range(1, 40)
+		if r.Chance(1, 25) {
+			k = r.Range(200, 3000) // far beyond any small-size fast path
+			c.Count("input_big", 1)
+		}
 		input = make([]T, k, k+r.Intn(5))
 		for i := range input {
 			input[i] = gen(r)
